@@ -15,7 +15,7 @@ package main
 //	       Close: RST behind the frame), fin<µs> / rst<µs> (the same after that many microseconds), keep (does not close
 //	       at all: control — only the caller reconnects)
 //	hold   none | <point>:<µs> — the yield hook holds every goroutine of the client that passes <point>
-//	       (read, write, recv:process, call:sent, reconnect) for that long while the scenario runs
+//	       (read, write, recv:process, call:sent) for that long while the scenario runs
 //	procs  GOMAXPROCS while the scenario runs (1, 2, 4, 16)
 //	iters  how often the scenario is run (a fresh client and fresh peers each time)
 //
@@ -374,8 +374,8 @@ func c17rParseClose(tok string) (how string, delay time.Duration, ok bool) {
 			if rest == "" {
 				return h, 0, true
 			}
-			us, err := strconv.Atoi(rest)
-			if err != nil || us < 0 || us > 1000000 || h == "keep" {
+			us, okN := c17rNat(rest)
+			if !okN || us > 1000000 || h == "keep" || h == "half" {
 				return "", 0, false
 			}
 			return h, time.Duration(us) * time.Microsecond, true
@@ -384,7 +384,16 @@ func c17rParseClose(tok string) (how string, delay time.Duration, ok bool) {
 	return "", 0, false
 }
 
-var c17rPoints = map[string]bool{"read": true, "write": true, "recv:process": true, "call:sent": true, "reconnect": true}
+var c17rPoints = map[string]bool{"read": true, "write": true, "recv:process": true, "call:sent": true}
+
+// c17rNat: a natural number written with digits only
+func c17rNat(t string) (int, bool) {
+	if t == "" || len(t) > 7 || strings.Trim(t, "0123456789") != "" {
+		return 0, false
+	}
+	n, err := strconv.Atoi(t)
+	return n, err == nil
+}
 
 func c17RaceExec(op []string) (string, bool) {
 	if len(op) == 0 || op[0] != "c17.race" {
@@ -394,9 +403,9 @@ func c17RaceExec(op []string) (string, bool) {
 		return "bad-op", true
 	}
 	how, delay, ok := c17rParseClose(op[1])
-	procs, err1 := strconv.Atoi(op[3])
-	iters, err2 := strconv.Atoi(op[4])
-	if !ok || err1 != nil || err2 != nil || procs < 1 || procs > 64 || iters < 1 || iters > 100000 {
+	procs, ok1 := c17rNat(op[3])
+	iters, ok2 := c17rNat(op[4])
+	if !ok || !ok1 || !ok2 || procs < 1 || procs > 64 || iters < 1 || iters > 100000 || strconv.Itoa(iters) != op[4] {
 		return "bad-op", true
 	}
 	point, holdFor := "", time.Duration(0)
@@ -405,8 +414,8 @@ func c17RaceExec(op []string) (string, bool) {
 		if i < 0 {
 			return "bad-op", true
 		}
-		us, err := strconv.Atoi(op[2][i+1:])
-		if err != nil || us < 0 || us > 1000000 || !c17rPoints[op[2][:i]] {
+		us, okN := c17rNat(op[2][i+1:])
+		if !okN || us > 1000000 || !c17rPoints[op[2][:i]] {
 			return "bad-op", true
 		}
 		point, holdFor = op[2][:i], time.Duration(us)*time.Microsecond
@@ -427,7 +436,7 @@ func c17RaceExec(op []string) (string, bool) {
 	started := time.Now()
 	for i := 0; i < iters; i++ {
 		// a tree on which most iterations hang must not take for ever: enough is known after a few
-		if len(bad) > 0 && (okN+sum(bad) >= iters || sum(bad) >= 8 || time.Since(started) > 40*time.Second) {
+		if len(bad) > 0 && (okN+sum(bad) >= iters || sum(bad) >= 3 || time.Since(started) > 40*time.Second) {
 			break
 		}
 		ran++
@@ -476,7 +485,7 @@ func c17RaceJudge(op []string, out string) string {
 }
 
 func c17RaceGen(g *G) {
-	n := g.N(60, 700)
+	n := g.N(120, 700)
 	for _, procs := range []int{1, 2, 16} {
 		g.Emit(fmt.Sprintf("c17.race fin none %d %d", procs, n), "race-migrate-and-close")
 	}
